@@ -205,6 +205,48 @@ def _parse_tuple(fn):
     return True
 
 
+def _parse_enum(fn):
+    """What is the module-level registry `_parsing_fns` indexed by in parse_enum: the Enum class object (True) or its
+    "<module>.<qualname>" string (False)?  Anything else is unrecognised."""
+    body = clean(fn.body)
+    inner = [s for s in body if isinstance(s, ast.FunctionDef)]
+    if len(inner) != 1 or inner[0].name != "_parse_enum":
+        raise Unrecognised("parse_enum: inner converter")
+    conv_src = unparse(inner[0])
+    if "return enum_type[v]" not in conv_src or "except KeyError" not in conv_src or "raise ValueError(" not in conv_src:
+        raise Unrecognised("parse_enum: the converter is no longer `enum_type[v]` with KeyError turned into ValueError")
+    name_key = "f'{enum_type.__module__}.{enum_type.__qualname__}'"
+    names = {}
+    for st in body:
+        if isinstance(st, ast.Assign) and len(st.targets) == 1 and isinstance(st.targets[0], ast.Name):
+            names[st.targets[0].id] = unparse(st.value)
+
+    def key_kind(node):
+        t = unparse(node)
+        if t == "enum_type":
+            return "class"
+        if t == name_key or names.get(t) == name_key:
+            return "name"
+        raise Unrecognised(f"parse_enum: _parsing_fns indexed by `{t}`")
+
+    stores, loads = [], []
+    for n in ast.walk(fn):
+        if isinstance(n, ast.Subscript) and unparse(n.value) == "_parsing_fns":
+            (stores if isinstance(n.ctx, ast.Store) else loads).append(key_kind(n.slice))
+        if isinstance(n, ast.Compare) and len(n.comparators) == 1 and unparse(n.comparators[0]) == "_parsing_fns":
+            loads.append(key_kind(n.left))
+        if isinstance(n, ast.Call) and unparse(n.func).startswith("_parsing_fns."):
+            raise Unrecognised(f"parse_enum: registry accessed through `{unparse(n.func)}`")
+    if len(stores) != 1:
+        raise Unrecognised(f"parse_enum: {len(stores)} stores into _parsing_fns")
+    kind = stores[0]
+    if kind not in loads:
+        raise Unrecognised("parse_enum: the registry is written under a key it is never looked up with")
+    if kind == "class" and set(loads) != {"class"}:
+        raise Unrecognised("parse_enum: class-keyed store with other look-ups")
+    return kind == "class"
+
+
 def emit(repo: str) -> str:
     pt = parse(repo, "simple_parsing/parsing.py")
     _constructor(find_def(pt, "__init__", cls="ArgumentParser"))
@@ -216,6 +258,7 @@ def emit(repo: str) -> str:
     _option_strings(find_def(fw, "option_strings", cls="FieldWrapper"))
     fp = parse(repo, "simple_parsing/wrappers/field_parsing.py")
     counter = _parse_tuple(find_def(fp, "parse_tuple"))
+    by_class = _parse_enum(find_def(fp, "parse_enum"))
     return (
         "From SPV Require Import Base.Str Model.History.\nOpen Scope string_scope.\n"
         "(* does _preprocessing re-assert the parser's own three settings on FieldWrapper before option strings are generated *)\n"
@@ -230,9 +273,11 @@ def emit(repo: str) -> str:
         f"Definition defaults_persist_gen : bool := {_b(persist)}.\n"
         "(* is `_preprocessing_done = True` the last statement of _preprocessing (false: assigned before the work) *)\n"
         f"Definition done_after_work_gen : bool := {_b(after_work)}.\n"
+        "(* does parse_enum key the module-level registry _parsing_fns by the Enum class object (false: by its qualified name) *)\n"
+        f"Definition reg_by_class_gen : bool := {_b(by_class)}.\n"
         "Definition facts_gen : facts :=\n"
         "  mkfacts reasserts_gen cfgarg_every_parse_gen setup_cached_gen tuple_counter_persists_gen defaults_persist_gen\n"
-        "          done_after_work_gen.\n"
+        "          done_after_work_gen reg_by_class_gen.\n"
         "Definition step_gen := step facts_gen.\n"
         "Definition fresh_gen := fresh facts_gen.\n"
         "Definition benign_gen := benign facts_gen.\n"
